@@ -79,4 +79,15 @@ PROPS = {
   ],
   "assumptions": ["scans list every path once (UniqueRels)", "exit-0 equivalence is stated for readable files and without size bounds"],
  },
+ "C16": {
+  "seed": 16,
+  "streams": [{"kind": "rust", "name": "c16"}],
+  "trusted_base": [
+    "hand-written Lean model of glob 0.3.3 Pattern::new / matches_from (default MatchOptions), src/filter.rs, the filter fold of src/sync/mod.rs:370-411 and the rule construction of src/main.rs:209-333, tied to the code by the differential stream c16 (glob token lists / error kind+pos / match results, add_rule text parsing, FilterRule::matches, should_include incl. deciding rule index, exhaustive small universes, destination path sets of filtered syncs through the real sy binary)",
+    "tools/extract_consts.py (order of the filter-engine feeding statements in src/main.rs, the calls they make, should_include's first-match / no-match results — regenerated from source each run, consts_ok_rule_order / consts_ok_filter_calls)",
+    "ignore::Walk yields a directory before everything below it and no path twice (hypothesis ParentsFirst); entries hidden by .ignore/.gitignore files never reach the filter (recorded as observation by the stream)",
+    "the transfer side (a kept entry is created/updated, a dropped one is not) is observed at binary level by the oracle, not yet proved in the engine model",
+  ],
+  "assumptions": ["ParentsFirst scan", "clean relative paths (non-empty components without '/', none '.' or '..')", "plain byte counts or exact KB multiples for --min-size/--max-size (parse_size's f64 arithmetic is outside the model)"],
+ },
 }
